@@ -211,7 +211,7 @@ def _reviewed():
     return json.load(open(os.path.join(VERIF, "tables", "discards.json")))["entries"]
 
 
-@rule("R12.1", 60, "no fallible result is discarded: every Result produced by a call is propagated, matched on, returned or handed on (reviewed exceptions enumerated)", ["C12"])
+@rule("R12.1", 40, "no fallible result is discarded: every Result produced by a call is propagated, matched on, returned or handed on (reviewed exceptions enumerated)", ["C12"])
 def r12_1(ctx):
     reviewed = _reviewed()
     budget = {}
@@ -297,7 +297,7 @@ def r12_1(ctx):
         else:
             ctx.ob(f"discarded:{crate.kind}:{b.name}:{f.get('name')}:{form}", False, site(b, bb),
                    f"the Result of `{f.get('def')}` is {form}: an I/O or parse failure here would go unnoticed")
-    ctx.ob("result-producing-calls", n >= 60, "lib+bin", f"{n} Result-producing call site(s) examined")
+    ctx.ob("result-producing-calls", n >= 40, "lib+bin", f"{n} Result-producing call site(s) examined")
     for key, cnt in budget.items():
         if used.get(key, 0) < cnt:
             ctx.ob(f"reviewed-entry-stale:{key[1]}:{key[2]}", True, "tables/discards.json", f"reviewed exception {key} no longer present ({used.get(key, 0)}/{cnt})", trivial=True)
